@@ -44,7 +44,9 @@ def demo_flags(notes, demo_src):
     fl = ["-std=c++14", "-I", ME + "/include"]
     m = re.search(r"g\+\+[^\n]*", notes + "\n" + demo_src)
     txt = notes + demo_src
-    if "-fsanitize=address" in txt or "fsanitize=address" in txt or "AddressSanitizer" in txt or "ASan" in notes:
+    if os.environ.get("SEEDEVAL_NOSAN"):
+        pass
+    elif "-fsanitize=address" in txt or "fsanitize=address" in txt or "AddressSanitizer" in txt or "ASan" in notes:
         fl += ["-fsanitize=address", "-fno-omit-frame-pointer"]
     if "-fsanitize=undefined" in txt:
         fl += ["-fsanitize=undefined", "-fno-sanitize-recover=all"]
